@@ -67,6 +67,10 @@ Pool == <<
   \* the incremental route knows the value, the batch route the declared type; both must take the same branch
   Set("ts", IfSet("q2", WMulti(<<WInt, WStr>>), V("x"), I(1), I(0))),
   Set("ta", Match(V("x"), <<ArmTy("q3", WAny, I(1))>>)),
+  \* two structs of equal content whose DECLARED types differ (a field initialised from a value of wider static type):
+  \* comparing them by name gives the same answer on both routes
+  Destruct(<<"sp", "sq">>, TupE(<<StructE(<< <<"v", Hide(WMulti(<<WInt, WFloat>>), I(1))>> >>), StructE(<< <<"v", I(1)>> >>)>>)),
+  Set("se", TupE(<<Bin("==", V("sp"), V("sq")), Bin("!=", V("sp"), V("sq"))>>)),
   \* a loop body that reads x and later declares its own x: every round — also after `continue' — starts afresh
   Set("lv", Block(<<Set("acc", MutE(WInt, I(0))), Set("k", MutE(WInt, I(0))),
                    Loop(Block(<<Asg("+=", V("k"), I(1)), If1(Bin(">", Deref(V("k")), I(3)), Break),
@@ -143,6 +147,8 @@ FnPool == <<
   [name |-> "strs", decl |-> FnDecl("strs", <<P("a", WArr(WStr))>>, WInt, <<Ret(I(1))>>)],
   [name |-> "ints", decl |-> FnDecl("ints", <<P("a", WArr(WInt))>>, WInt, <<Ret(I(1))>>)],
   [name |-> "pair", decl |-> FnDecl("pair", <<P("a", WTup(<<WArr(WStr), WInt>>))>>, WInt, <<Ret(I(1))>>)],
+  [name |-> "nest", decl |-> FnDecl("nest", <<P("a", WArr(WArr(WInt)))>>, WInt, <<Ret(I(1))>>)],
+  [name |-> "tups", decl |-> FnDecl("tups", <<P("a", WArr(WTup(<<WInt, WInt>>)))>>, WInt, <<Ret(I(1))>>)],
   [name |-> "rec", decl |-> FnDecl("rec", <<P("n", WInt)>>, WInt,
                                    <<If1(Bin("<", V("n"), I(1)), Ret(I(0))), Ret(Bin("+", V("n"), CallE(V("rec"), <<Bin("-", V("n"), I(1))>>)))>>)]
 >>
@@ -151,7 +157,10 @@ ArgPool == <<I(3), F(3), S(<<97>>), ArrE(<<>>), ArrE(<<I(1), I(2)>>), ArrE(<<I(1
              \* values whose hidden element type says more than their contents
              RepE(I(1), I(0)), RepE(S(<<97>>), I(0)),
              TupAt(PartE(IterE(ArrE(<<I(1), S(<<120>>), I(2)>>)), IsIntP), 0),
-             TupE(<<RepE(I(1), I(0)), I(2)>>)>>
+             TupE(<<RepE(I(1), I(0)), I(2)>>),
+             \* arrays of compound elements of ONE kind but different types (the narrower first)
+             ArrE(<<ArrE(<<I(1)>>), ArrE(<<F(5)>>)>>), ArrE(<<ArrE(<<I(1)>>), ArrE(<<I(2)>>)>>),
+             ArrE(<<TupE(<<I(1), I(2)>>), TupE(<<I(1), F(5)>>)>>), ArrE(<<TupE(<<I(1), I(2)>>), TupE(<<I(3), I(4)>>)>>)>>
 ArgVectors == {<<>>} \cup {<<a>> : a \in 1..Len(ArgPool)} \cup {<<a, b>> : a \in {1, 2, 3}, b \in {1, 4, 5, 6, 7, 10, 12}}
 
 HostCase(fi, av) ==
